@@ -803,6 +803,7 @@ pub fn analyze(tr: &Trace) -> Report {
         stream_snaps: HashMap::new(),
         walks: HashMap::new(),
         last_mutation_idx: 0,
+        stalled_now: 0,
         rep: Report::default(),
         now: 0,
         idx: 0,
@@ -854,7 +855,8 @@ pub fn analyze(tr: &Trace) -> Report {
                     s.close_sent = true;
                 }
             }
-            EvKind::Qp { stats } => {
+            EvKind::Qp { stats, stalled } => {
+                m.stalled_now = *stalled;
                 m.on_qp(stats);
                 m.check_invalid_ctrl_at_qp();
             }
